@@ -37,26 +37,43 @@ func c16Word(r *Rand, lo, hi int) string {
 }
 
 func (propC16) Gen(r *Rand) *Plan {
-	nops := r.Range(2, 24*r.Size())
+	size := r.Size()
+	nops := r.Range(2, 24*size)
+	maxLen := 2 + size // symbols up to 3 characters in small runs, up to 12 in large ones
+	if maxLen > 12 {
+		maxLen = 12
+	}
 	var ops []Op
 	var syms []string
 	for i := 0; i < nops; i++ {
 		if len(syms) == 0 || r.Bool(0.4) {
-			s := c16Word(r, 1, 2+Scale)
-			if len(syms) > 0 && r.Bool(0.35) {
-				// extend or share a prefix with an existing symbol
+			s := c16Word(r, 1, maxLen)
+			if len(syms) > 0 && r.Bool(0.5) {
 				base := []rune(syms[r.Intn(len(syms))])
-				if r.Bool(0.5) && len(base) < 2+Scale {
-					s = string(append(append([]rune{}, base...), r.PickRune(c16Alphabet)))
-				} else if len(base) > 1 {
-					s = string(append(append([]rune{}, base[:len(base)-1]...), r.PickRune(c16Alphabet)))
+				switch r.Intn(4) {
+				case 0: // extend an existing symbol
+					if len(base) < maxLen {
+						s = string(append(append([]rune{}, base...), r.PickRune(c16Alphabet)))
+					}
+				case 1: // a sibling: same prefix, other last character
+					if len(base) > 1 {
+						s = string(append(append([]rune{}, base[:len(base)-1]...), r.PickRune(c16Alphabet)))
+					}
+				case 2: // a proper prefix of an existing symbol (creates no new node)
+					if len(base) > 1 {
+						s = string(base[:r.Range(1, len(base)-1)])
+					}
+				default: // same tail, other head (shares a suffix with an existing symbol)
+					if len(base) > 1 {
+						s = string(append([]rune{r.PickRune(c16Alphabet)}, base[1:]...))
+					}
 				}
 			}
 			syms = append(syms, s)
 			ops = append(ops, Op{Op: "add", S: s})
 		} else {
 			var in string
-			switch r.Intn(4) {
+			switch r.Intn(6) {
 			case 0: // exactly a registered symbol
 				in = syms[r.Intn(len(syms))]
 			case 1: // a registered symbol cut short (input ends inside a longer symbol)
@@ -64,8 +81,21 @@ func (propC16) Gen(r *Rand) *Plan {
 				in = string(b[:r.Range(1, len(b))])
 			case 2: // a registered symbol followed by more
 				in = syms[r.Intn(len(syms))] + c16Word(r, 1, 3)
+			case 3: // a symbol cut short, then something else: deep unwinding in the middle of the input
+				b := []rune(syms[r.Intn(len(syms))])
+				in = string(b[:r.Range(1, len(b))]) + r.Pick([]string{"x", "λ", "<", "=!"})
+			case 4: // the same input as some earlier read (read again after later registrations)
+				for j := len(ops) - 1; j >= 0; j-- {
+					if ops[j].Op == "read" && r.Bool(0.5) {
+						in = ops[j].S
+						break
+					}
+				}
+				if in == "" {
+					in = c16Word(r, 1, 5)
+				}
 			default:
-				in = c16Word(r, 1, 5*Scale)
+				in = c16Word(r, 1, 5*size)
 			}
 			ops = append(ops, Op{Op: "read", S: in})
 		}
@@ -91,6 +121,19 @@ func (propC16) Exec(p *Plan, x *Ctx) *Outcome {
 		}
 		model := map[string]int{}
 		lastRead := ""
+		// a second symbol table is alive and in use at the same time; its symbols share heads and
+		// tails with this table's: tables must not share text, types or cached positions
+		decoy := generic.NewSymbolRootNode()
+		decoyStep := func(i int, sym string) {
+			rs := []rune(sym)
+			if len(rs) == 0 {
+				return
+			}
+			d := string(append([]rune{c16Alphabet[i%len(c16Alphabet)]}, rs[1:]...)) + string(c16Alphabet[(i/3)%len(c16Alphabet)])
+			decoy.Add(d, 77)
+			decoy.NextToken(sio.NewStringScanner(d + "x"))
+			decoy.NextToken(sio.NewStringScanner(sym))
+		}
 		read := func(i int, input string, why string) bool {
 			in := []rune(input)
 			if len(in) == 0 {
@@ -143,6 +186,7 @@ func (propC16) Exec(p *Plan, x *Ctx) *Outcome {
 				if o.S == "" {
 					continue
 				}
+				decoyStep(i, o.S)
 				if state != nil {
 					state.Add(o.S, c16Type(o.S))
 				} else {
